@@ -4,6 +4,7 @@ package main
 
 import (
 	"fmt"
+	"os"
 	"go/constant"
 	"go/token"
 	"go/types"
@@ -32,6 +33,9 @@ type Scope struct {
 	bind    map[string]specVal // callee scope: parameter bindings
 	callee  *ssa.Function
 	inOld   bool
+	// preferLate: resolve local names as visible at the end of the loop body
+	// (for assertions on back edges) rather than at the loop head
+	preferLate bool
 }
 
 func (fc *FnCtx) funcScope(env, old *Env, results []Term) *Scope {
@@ -270,6 +274,15 @@ func (fc *FnCtx) localAlloc(name string, poss ...token.Pos) *ssa.Alloc {
 						return a
 					}
 				}
+				if os.Getenv("GOVC_DEBUG") != "" {
+					fmt.Fprintf(os.Stderr, "DEBUG localAlloc %s at %v: obj pos %v, cands:", name, fc.eng.Fset.Position(pos), fc.eng.Fset.Position(obj.Pos()))
+					for _, a := range cands {
+						fmt.Fprintf(os.Stderr, " %v", fc.eng.Fset.Position(a.Pos()))
+					}
+					fmt.Fprintln(os.Stderr)
+				}
+			} else if os.Getenv("GOVC_DEBUG") != "" {
+				fmt.Fprintf(os.Stderr, "DEBUG localAlloc %s at %v: not found in scope %v (names %v)\n", name, fc.eng.Fset.Position(pos), fc.eng.Fset.Position(inner.Pos()), inner.Names())
 			}
 		}
 	}
@@ -376,7 +389,9 @@ func (sc *Scope) lookupIdent(name string) (specVal, bool) {
 	}
 	// locals
 	var poss []token.Pos
-	poss = append(poss, sc.pos)
+	if !sc.preferLate {
+		poss = append(poss, sc.pos)
+	}
 	if sc.loop != nil {
 		// a position late in the loop body sees the loop variables
 		var mx token.Pos
@@ -388,6 +403,9 @@ func (sc *Scope) lookupIdent(name string) (specVal, bool) {
 			}
 		}
 		poss = append(poss, mx)
+	}
+	if sc.preferLate {
+		poss = append(poss, sc.pos)
 	}
 	if a := fc.localAlloc(name, poss...); a != nil {
 		if v, ok := fc.vals[a]; ok && v.P != nil {
@@ -862,6 +880,7 @@ var specLibFuncs = map[string]types.Type{
 	"strings.ToLower":       types.Typ[types.String],
 	"strings.LastIndex":     types.Typ[types.Int],
 	"time.Time.Before":      types.Typ[types.Bool],
+	"time.Time.IsZero":      types.Typ[types.Bool],
 	"os.File.Name":          types.Typ[types.String],
 	"strings.Replace":       types.Typ[types.String],
 	"FileInfo.Name":         types.Typ[types.String],
